@@ -106,6 +106,11 @@ def gen_cases(ctx, n):
         elif t == 10:
             # a predicted picture of another size than the reference
             w2, h2 = rng.choice(SIZES)
+            how = rng.below(3)
+            if how == 1:
+                w2 = w                      # same width, another height (smaller or larger than the reference)
+            if how == 2:
+                h2 = h                      # same height, another width
             if mode == "std":
                 w2, h2 = max(4, (w2 + 3) // 4 * 4), max(4, (h2 + 3) // 4 * 4)
             ops.append(D(pic("P", w2, h2, uncoded_p=0))); kind.append("P-other-size")
@@ -156,8 +161,10 @@ def run(ctx):
             cut = next((j for j, t in enumerate(tm) if t["cls"] == "skipped-big"), None)
             if cut is not None:
                 tm, ti = tm[:cut], ti[:cut]
-            if [t["raw"] for t in tm] != [t["raw"] for t in ti]:
-                k = next((j for j in range(min(len(tm), len(ti))) if tm[j]["raw"] != ti[j]["raw"]), min(len(tm), len(ti)))
+            # C01 does not speak about sample values: result class, error kind, header, plane sizes and position are compared
+            sh = decsuite.shape
+            if [sh(t["raw"]) for t in tm] != [sh(t["raw"]) for t in ti]:
+                k = next((j for j in range(min(len(tm), len(ti))) if sh(tm[j]["raw"]) != sh(ti[j]["raw"])), min(len(tm), len(ti)))
                 broken.append("correspondence decode-history: model and implementation differ at op %d of history %d: model %s / impl %s" %
                               (k, idx, tm[k]["cls"] if k < len(tm) else "-", ti[k]["cls"] if k < len(ti) else "-"))
             if any(t["cls"] == "ok" for t in ti) and any(t["cls"].startswith("err") for t in ti):
